@@ -52,6 +52,9 @@ NEEDS = {
 }
 # how each check caught it / what was added after a miss (hand-written, keyed seed -> check -> text)
 HOW = {
+    ("C01-G", "C01"): "fixed anchors on the massive charged-current kernels at O(a_s), added after the first miss (the quick draw had not reached FL/CC/massive/PTO>=1)",
+    ("C01-G", "C03"): "every part asked again with the same arguments must return the same number, added after the first miss",
+    ("C11-H", "C11"): "the same kind for a second heavyness and a repeated point inside the judged run, added after the first miss",
     ("C06-G", "C06"): "tagged mode: gluon row of a massless flavour-tagged observable = e_q^2/sum e^2 times the total's, added after the first miss",
     ("C03-H", "C03"): "mass ratios Q2/m2 below 1 (0.03, 0.3; thorough 0.01..0.3) among the kernel arguments, added after the first miss",
     ("C17-H", "C17"): "matching ratios k != 1 with the coupling compared with eko inside the windows between m^2, k m^2 and (k m)^2, added after the first miss",
